@@ -52,13 +52,28 @@ def mk_ports_cfg(spec):
                     multiclient=mc)
 
 
+def enc_name(spec):
+    """The encapsulee name in the spelling the spec asks for (Builder.build feeds it through
+    ns_ids_t, which accepts NamespaceIds, lists, dotted and '::' strings)."""
+    from dznpy.scoping import NamespaceIds
+    how = spec.get('enc_as')
+    ids = list(spec['enc'])
+    if how == 'dotted' and len(ids) > 1:
+        return '.'.join(ids)
+    if how == 'colons' and len(ids) > 1:
+        return '::'.join(ids)
+    if how == 'list':
+        return ids
+    return NamespaceIds(ids)
+
+
 def mk_configuration(spec, fc):
     from dznpy.adv_shell import Configuration
     from dznpy.adv_shell.common import FacilitiesOrigin
     from dznpy.scoping import NamespaceIds
     return Configuration(
         dezyne_filename=spec['filename'], ast_fc=fc, output_basename_suffix=spec['suffix'],
-        fqn_encapsulee_name=NamespaceIds(list(spec['enc'])), ports_cfg=mk_ports_cfg(spec),
+        fqn_encapsulee_name=enc_name(spec), ports_cfg=mk_ports_cfg(spec),
         facilities_origin=FacilitiesOrigin[spec['origin']], copyright=spec['copyright'],
         support_files_ns_prefix=None if spec.get('prefix') is None else NamespaceIds(
             list(spec['prefix'])),
